@@ -10,6 +10,7 @@ import (
 	"sort"
 	"strconv"
 	"strings"
+	"time"
 
 	"verifharness/internal/oracle"
 	"verifharness/internal/proj"
@@ -371,6 +372,7 @@ func e2eRefusals(c *e2eCtx) error {
 			writeCfg(s, func(c *proj.Config) { c.PkgName = "goat-cov" })
 			return n > 0
 		}, false, true},
+		{"valid-init-yaml-special-values", []string{"init", "--force", "--app-name", "billing: api", "--ignores", "*.pb.go,vendor"}, func(s *scenario, r *rand.Rand) bool { return true }, false, true},
 		{"valid-init-force", []string{"init", "--force", "--app-name", "x y", "--granularity", "func"}, func(s *scenario, r *rand.Rand) bool { return true }, false, true},
 	}
 	// what the Lean plan (Cmd.plan) is told about each scenario: flag overrides of a valid
@@ -442,6 +444,22 @@ func e2eRefusals(c *e2eCtx) error {
 		if !k.prepare(s, r) {
 			c.count("skipped:" + k.name)
 			return
+		}
+		// stale stat data: tracked files re-saved with the same bytes (an editor, a formatter, goat
+		// clean) — a status query must not refresh .git/index on its way to a refusal
+		if r.Intn(2) == 0 {
+			n := 0
+			for rel := range s.newTree {
+				if n < 3 {
+					if b, err := os.ReadFile(filepath.Join(s.dir, rel)); err == nil {
+						os.WriteFile(filepath.Join(s.dir, rel), b, 0644)
+						future := time.Now().Add(time.Duration(3600+n) * time.Second)
+						os.Chtimes(filepath.Join(s.dir, rel), future, future)
+						n++
+					}
+				}
+			}
+			c.count("stale-stat-data")
 		}
 		c.mu.Lock()
 		c.res.Evaluations++
